@@ -179,6 +179,9 @@ def monitor (evs : List (Nat × Fields)) : String :=
       -- C06: a caller that brought a fetch closure is answered with a value or an error, never with "nothing"
       let fetchers' := if (ev = "call" || ev = "callabort") && getD f "fetch" "0" = "1" then c :: fetchers else fetchers
       let starved : Option Nat := (callers.find? fun (cid, st) => st = "none" && fetchers'.contains cid).map (·.1)
+      -- C06: a caller is answered by whoever completes or takes over the flight; "waiter channel closed" means its
+      -- notifier was dropped unanswered
+      let closedOn : Option Nat := (callers.find? fun (_, st) => st = "errclosed").map (·.1)
       let hang := (getD f "final" "0" = "1" || ev = "abort" || ev = "callabort") && callers.any fun (_, st) => st = "p"
       -- C18: at the end (nothing held, nothing in flight) a fresh lookup holds the only reference
       let leaked : Option (Nat × Nat) := (listOf (getD f "refs" "-")).findSome? fun t =>
@@ -202,6 +205,7 @@ def monitor (evs : List (Nat × Fields)) : String :=
       | none, none, none, false =>
         if failedCached then s!"FAILS prop=C06 clause=failed_fetch_caches_nothing line={ln} step={n} detail=-"
         else if lateWrite then s!"FAILS prop=C11 clause=late_result_after_disk_only_insert line={ln} step={n} detail=the_lookup_or_fetch_{c}_was_closed_by_a_disk-only_insert_of_its_key_but_its_late_result_changed_the_cache"
+        else if closedOn.isSome then s!"FAILS prop=C06 clause=waiter_notifier_dropped_unanswered line={ln} step={n} detail=caller_{closedOn.getD 0}_was_told_that_its_waiter_channel_closed_instead_of_being_answered"
         else if starved.isSome then s!"FAILS prop=C06 clause=fetch_caller_answered_nothing line={ln} step={n} detail=caller_{starved.getD 0}_brought_a_fetch_closure_and_was_answered_with_no_entry_and_no_error"
         else go pinned' running' keyOf' callers started cache superseded' fetchers' rest (n + 1)
   go [] [] [] [] [] [] [] [] evs 0
